@@ -4,6 +4,8 @@
 
 package mongodb
 
+//@ immutable RepositoryMongo.MongoCollections
+
 // A datatype document as the service layer relies on it.
 //@ pred cpOK(cp *model.CheckPoint) = cp != nil && cp.Sseq < 4611686018427387904 && cp.Cseq < 4611686018427387904
 //@ pred docWF(d *schema.DatatypeDoc) = d.RWClients != nil && d.ROClients != nil && (forall c string :: (c in d.RWClients ==> d.RWClients[c] != nil && cpOK(d.RWClients[c].CP) && d.RWClients[c].CP.Sseq <= d.Sseq.End) && (c in d.ROClients ==> d.ROClients[c] != nil && cpOK(d.ROClients[c].CP) && d.ROClients[c].CP.Sseq <= d.Sseq.End))
@@ -42,6 +44,14 @@ package mongodb
 // of stored operations. The induction hypothesis of C06 (Inv_log: ids duid:1..stored, sseq i at
 // id duid:i) is what makes a range query return consecutive sequence numbers ending at G.stored.
 //@ ghost field G.stored mathint
+// ghost: first sequence number asked for by the last GetOperations; version of the latest stored
+// snapshot (0 if none); versions written by the last snapshot inserts
+//@ ghost field G.lastFrom mathint
+//@ ghost field G.snapSseq mathint
+//@ ghost field G.insSnapSseq mathint
+//@ ghost field G.insRealVer mathint
+//@ ghost field G.snapInserts mathint
+//@ ghost field G.realInserts mathint
 
 //@ func (*MongoCollections).GetOperations
 //@   trusted MongoDB Find {duid, sseq >= from [, <= to]} sorted by sseq ascending + BSON decode; consecutive numbering is the C06 invariant at request entry
@@ -50,7 +60,8 @@ package mongodb
 //@   ensures len(result0) == len(result1)
 //@   ensures forall i int :: 0 <= i && i < len(result0) ==> result0[i] != nil && result0[i].ID != nil && result1[i] == from + i && result0[i].$sseq == from + i
 //@   ensures result2 == nil && to == constants.InfinitySseq ==> len(result0) == (from <= G.stored ? G.stored - from + 1 : 0)
-//@   modifies alloc
+//@   ensures[records-range] G.lastFrom == from
+//@   modifies alloc, G:lastFrom
 
 //@ func (*MongoCollections).InsertOperations
 //@   trusted MongoDB InsertMany (all-or-error as far as the reply tells)
@@ -65,4 +76,54 @@ package mongodb
 //@   trusted MongoDB UpdateOne(upsert) of the datatype document
 //@   mode math
 //@   requires[end-not-beyond-stored] datatype != nil && datatype.Sseq.End <= G.stored
+//@   modifies nothing
+
+//@ func (*MongoCollections).GetLatestSnapshot
+//@   trusted MongoDB FindOne {colNum, duid} sorted by sseq descending + BSON decode
+//@   mode math
+//@   ensures result1 != nil ==> result0 == nil
+//@   ensures[latest] result1 == nil ==> (result0 != nil ? fresh(result0) && result0.Sseq == G.snapSseq && G.snapSseq >= 1 : G.snapSseq == 0)
+//@   ensures[snapshot-not-beyond-log] G.snapSseq <= G.stored
+//@   modifies alloc
+
+//@ func (*MongoCollections).InsertSnapshot
+//@   trusted MongoDB InsertOne of the snapshot document {duid:sseq, colNum, duid, sseq, meta, snapshot}
+//@   mode math
+//@   ensures result == nil ==> G.snapInserts == old(G.snapInserts) + 1 && G.insSnapSseq == sseq
+//@   ensures result != nil ==> G.snapInserts == old(G.snapInserts)
+//@   modifies G:snapInserts, G:insSnapSseq
+
+//@ func (*RepositoryMongo).InsertRealSnapshot
+//@   trusted BSON conversion + MongoDB ReplaceOne(upsert) of the user-visible document with _orda_ver_ = sseq
+//@   mode math
+//@   ensures result == nil ==> G.realInserts == old(G.realInserts) + 1 && G.insRealVer == sseq
+//@   ensures result != nil ==> G.realInserts == old(G.realInserts)
+//@   modifies G:realInserts, G:insRealVer
+
+//@ ghost field G.clientWrites mathint
+
+//@ func (*MongoCollections).GetCollection
+//@   trusted MongoDB FindOne {_id: name} on the collections collection + BSON decode
+//@   mode math
+//@   ensures result1 != nil ==> result0 == nil
+//@   ensures result0 != nil ==> fresh(result0) && result0.Name == name
+//@   modifies alloc
+
+//@ func (*MongoCollections).GetClient
+//@   trusted MongoDB FindOne {_id: cuid} on the clients collection + BSON decode
+//@   mode math
+//@   ensures result1 != nil ==> result0 == nil
+//@   ensures result0 != nil ==> fresh(result0) && result0.CUID == cuid
+//@   modifies alloc
+
+//@ func (*MongoCollections).UpdateClient
+//@   trusted MongoDB UpdateOne(upsert) of the client document
+//@   mode math
+//@   ensures result == nil ==> G.clientWrites == old(G.clientWrites) + 1
+//@   ensures result != nil ==> G.clientWrites == old(G.clientWrites)
+//@   modifies G:clientWrites
+
+//@ func (*RepositoryMongo).GetOrCreateRealCollection
+//@   trusted MongoDB collection creation for the user-visible documents
+//@   mode math
 //@   modifies nothing
